@@ -256,7 +256,19 @@ def kg_read(t, i, read_neg=False, ignore_newline=False, module=None):
     return read_op(t, i)
 
 
-def kg_read_array(t, i, backend, **kwargs):
+def realize_dicts(a):
+    """
+    Data read by .r / .rs is never evaluated, so a dictionary literal in it has to be
+    turned into the dictionary it denotes here (at any nesting depth).
+    """
+    if isinstance(a, KGCall) and a.a is copy_lambda:
+        return {k: realize_dicts(v) for k, v in a.args.items()}
+    if isinstance(a, list):
+        return [realize_dicts(x) for x in a]
+    return a
+
+
+def kg_read_array(t, i, backend, data=False, **kwargs):
     """
     Read a value and convert lists to arrays using the provided backend.
 
@@ -271,6 +283,8 @@ def kg_read_array(t, i, backend, **kwargs):
         Starting position in the string.
     backend : BackendProvider
         The backend to use for array conversion.
+    data : bool
+        The text is data (.r / .rs), not a program: dictionary literals are returned as dictionaries.
     **kwargs
         Additional arguments passed to kg_read (read_neg, ignore_newline, module).
 
@@ -280,6 +294,8 @@ def kg_read_array(t, i, backend, **kwargs):
         (new_position, value) where value is converted to an array if it was a list.
     """
     i, a = kg_read(t, i, **kwargs)
+    if data:
+        a = realize_dicts(a)
     if isinstance(a, list):
         a = backend.kg_asarray(a)
     return i, a
